@@ -7,12 +7,21 @@
   trees, all paths, all depths.  A node is addressed by an index path `p` (`reach`), its depth is
   `p.length - 1`; descent goes only through wrappers whose inner messages are executed.
 
+  Part 1b (routes).  `NewAnteHandler` picks the ante chain by the tx's first extension option; the
+  route table (URL → constructor → decorators) is regenerated into `Gen.Ante.routes`.  The theorems
+  say that EVERY route gates the message types: it runs the reject decorator right after context
+  set-up, or (the eth route) a decorator that in every mode insists on MsgEthereumTx only — so no
+  disabled cosmos message is accepted through any route, and an unlisted extension option is
+  rejected outright.  What the SDK / ethermint decorators do is the hand-written `classify`
+  (trusted reading, exercised by the harness through the real `app.AnteHandler()`).
+
   Part 2 (guards).  `authority_guard_table` / `owner_guard_table` are facts about the regenerated
   guard table (`Gen.Guards`), and the M-Guards theorems say what those facts give for every state,
   every signer and every op sequence.  That the table describes the handlers is the extractor's
   claim, validated behaviourally by the harness (translator = trusted base).
 -/
 import DymVerif.Lemmas.AnteBasic
+import DymVerif.Lemmas.AnteRoutes
 import DymVerif.Gen.Ante
 import DymVerif.Gen.Guards
 namespace DymVerif.C20
@@ -245,30 +254,253 @@ theorem granted_update_client_cannot_be_executed (tx : List Msg) (p : List Nat) 
 example : anteCheck cfg [.node tyExec [.node tyUpdateClient [] 0 false] 0 false]
     = some (.disabled tyUpdateClient) := by decide
 
-/-! ## Part 2: guard table -/
+/-! ## clause: the deprecated misbehaviour submission -/
 
-/-- **authority_guard_table**: every registered custom-module message with an `Authority` field is
-    compared with the keeper authority before any write (regenerated table). -/
-theorem authority_guard_table :
-    ∀ e ∈ Gen.Guards.entries, e.hasAuthorityField = true → e.guard = .authority ∧ e.guardFirst = true := by
+/-- table fact: `MsgSubmitMisbehaviour` is blocked from depth 1 on (it is listed next to the
+    light-client update) and allowed at the top level, where the light-client decorator sees it -/
+theorem gen_misbehaviour_blocked_nested :
+    blocked cfg tyMisbehaviour 1 = true ∧ blocked cfg tyMisbehaviour 0 = false := by decide
+
+/-- **misbehaviour_rejected_when_nested**: a `MsgSubmitMisbehaviour` at any depth ≥ 1 — inside authz
+    exec, a gov or a group proposal, in any combination — makes the transaction fail -/
+theorem misbehaviour_rejected_when_nested (tx : List Msg) (p : List Nat) (m : Msg)
+    (hr : reach W tx p = some m) (ht : m.ty = tyMisbehaviour) (hn : 2 ≤ p.length) :
+    anteCheck cfg tx ≠ none := by
+  rw [← accOf_cfg] at hr
+  apply blocked_node_rejected cfg tx p m hr
+  rw [ht]
+  exact blocked_mono gen_misbehaviour_blocked_nested.1 (by omega)
+
+/-- … and so does a nested grant naming it -/
+theorem grant_of_misbehaviour_rejected_when_nested (tx : List Msg) (p : List Nat) (m : Msg)
+    (hr : reach W tx p = some m) (hg : m.ty = tyGrant) (ha : m.auth = tyMisbehaviour)
+    (hn : 2 ≤ p.length) : anteCheck cfg tx ≠ none := by
+  intro hacc
+  rw [← accOf_cfg] at hr
+  have hp := accepted_path cfg p 0 tx m hacc hr
+  have hacc' : accOf cfg m.ty = some .grant := by rw [hg]; decide
+  have hb := (hp.grant hacc').2
+  simp only [Nat.zero_add] at hb
+  rw [ha, blocked_mono gen_misbehaviour_blocked_nested.1 (by omega)] at hb
+  cases hb
+
+example : anteCheck cfg [.node tyGovSubmit [.node tyMisbehaviour [] 0 false] 0 false]
+    = some (.disabled tyMisbehaviour) := by decide
+example : anteCheck cfg [.node tyMisbehaviour [] 0 false] = none := by decide
+
+/-! ## Part 1b: every route of `NewAnteHandler` -/
+
+abbrev routes : List Route := Gen.Ante.routes
+
+/-- everything of NewAnteHandler's closure that is not extracted as data still has the modelled text
+    (first extension option selects the route, default case rejects, no option = cosmos chain) -/
+theorem gen_route_shape_ok : Gen.Ante.routeShapeOk = true := by decide
+
+/-- table fact (decided on the regenerated route table, decorators classified by `classify`): every
+    route runs the reject decorator first after context set-up, or contains a decorator that in
+    every mode fails unless all messages are MsgEthereumTx.  A new route without either, or the
+    reject decorator moved behind a fee / signature decorator, breaks this. -/
+theorem gen_routes_guarded : ∀ r ∈ routes, routeGuarded r = true := by decide
+
+/-- table fact: a tx without extension options is routed, and to a chain that rejects first -/
+theorem gen_plain_route_rejects_first :
+    (routeOf routes none).any (fun r => rejectFirst (r.decs.map classify)) = true := by decide
+
+/-- table fact: the routes are not vacuous — the plain and the ethereum one exist, with different
+    chains (non-vacuity of the statements below) -/
+theorem gen_routes_nonvacuous :
+    routes.length = 2 ∧
+    (routeOf routes (some "/ethermint.evm.v1.ExtensionOptionsEthereumTx")).any
+      (fun r => ethGuarded (r.decs.map classify) && !rejectFirst (r.decs.map classify)) = true := by
   decide
 
-/-- every owner-only message named by the property compares its signer with the stored owner (or
-    addresses the signer's own object) before any write -/
+/-- **every_route_guards**: whatever the extension option and the mode (ReCheckTx or not), a
+    transaction that no decorator of its route rejects for its message types has either passed
+    the reject decorator (`anteCheck`) or consists of MsgEthereumTx messages only. -/
+theorem every_route_guards (rc : Bool) (ext : Option String) (tx : List Msg)
+    (h : runAnte cfg routes rc ext tx = none) :
+    anteCheck cfg tx = none ∨ ∀ m ∈ tx, m.ty = tyEthTx := by
+  unfold runAnte at h
+  cases hr : routeOf routes ext with
+  | none => rw [hr] at h; cases h
+  | some r =>
+    rw [hr] at h
+    have hm : r ∈ routes := List.mem_of_find?_eq_some hr
+    exact runDecs_guarded (gen_routes_guarded r hm) h
+
+/-- **unknown_extension_rejected**: a first extension option that no route lists is refused before
+    any chain runs -/
+theorem unknown_extension_rejected (rc : Bool) (u : String) (tx : List Msg)
+    (hu : ∀ r ∈ routes, r.ext ≠ some u) : runAnte cfg routes rc (some u) tx = some .unknownExt := by
+  have : routeOf routes (some u) = none := by
+    unfold routeOf
+    rw [List.find?_eq_none]
+    intro r hr
+    simpa using hu r hr
+  simp [runAnte, this]
+
+example : runAnte cfg routes false (some "/ethermint.types.v1.ExtensionOptionsWeb3Tx")
+    [.node tyOther [] 0 false] = some .unknownExt := by decide
+
+/-- a MsgEthereumTx is no wrapper: nothing is reachable below it -/
+theorem ethtx_not_wrapper : W tyEthTx ≠ some .msgs := by decide
+
+/-- **disabled_rejected_on_every_route**: vesting-account creation at any position, a light-client
+    update or misbehaviour submission at any nested position: rejected through EVERY route, in
+    every mode — on the eth route because a transaction carrying anything but MsgEthereumTx is
+    refused as a whole. -/
+theorem disabled_rejected_on_every_route (rc : Bool) (ext : Option String) (tx : List Msg)
+    (p : List Nat) (m : Msg) (hr : reach W tx p = some m)
+    (hd : (m.ty ∈ alwaysDisabled ∧ m.ty ≠ tyEthTx) ∨
+          ((m.ty = tyUpdateClient ∨ m.ty = tyMisbehaviour) ∧ 2 ≤ p.length)) :
+    runAnte cfg routes rc ext tx ≠ none := by
+  intro h
+  cases every_route_guards rc ext tx h with
+  | inl hacc =>
+    rcases hd with ⟨hm, _⟩ | ⟨hm | hm, hn⟩
+    · exact disabled_rejected_everywhere tx p m hr (.inl hm) hacc
+    · exact disabled_rejected_everywhere tx p m hr (.inr ⟨hm, hn⟩) hacc
+    · exact misbehaviour_rejected_when_nested tx p m hr hm hn hacc
+  | inr hall =>
+    have hw : ∀ x ∈ tx, W x.ty ≠ some .msgs := fun x hx => by rw [hall x hx]; exact ethtx_not_wrapper
+    have ⟨hmem, hlen⟩ := reach_no_wrapper hw hr
+    have hty := hall m hmem
+    rcases hd with ⟨_, hne⟩ | ⟨_, hn⟩
+    · exact hne hty
+    · omega
+
+/-- **ethtx_only_as_top_level_of_eth_only_tx**: a raw EVM message is accepted nowhere except as a
+    top-level message of a transaction that consists of MsgEthereumTx only (which only the eth
+    route lets through; the cosmos chain rejects it by type, `ethtx_rejected`) -/
+theorem ethtx_only_as_top_level_of_eth_only_tx (rc : Bool) (ext : Option String) (tx : List Msg)
+    (h : runAnte cfg routes rc ext tx = none) (p : List Nat) (m : Msg)
+    (hr : reach W tx p = some m) (ht : m.ty = tyEthTx) :
+    p.length = 1 ∧ ∀ x ∈ tx, x.ty = tyEthTx := by
+  cases every_route_guards rc ext tx h with
+  | inl hacc => exact absurd hacc (ethtx_rejected tx p m hr ht)
+  | inr hall =>
+    have hw : ∀ x ∈ tx, W x.ty ≠ some .msgs := fun x hx => by rw [hall x hx]; exact ethtx_not_wrapper
+    exact ⟨(reach_no_wrapper hw hr).2, hall⟩
+
+/-- non-vacuity: the eth route refuses a vesting message (also next to a MsgEthereumTx, also on
+    ReCheckTx, where the validate-basic decorator is skipped), lets an eth-only tx through; the
+    plain route refuses the raw EVM message -/
+example :
+    runAnte cfg routes false (some "/ethermint.evm.v1.ExtensionOptionsEthereumTx")
+      [.node tyEthTx [] 0 false, .node tyVest [] 0 false] = some (.notEth tyVest) ∧
+    runAnte cfg routes true (some "/ethermint.evm.v1.ExtensionOptionsEthereumTx")
+      [.node tyVest [] 0 false] = some (.notEth tyVest) ∧
+    runAnte cfg routes false (some "/ethermint.evm.v1.ExtensionOptionsEthereumTx")
+      [.node tyEthTx [] 0 false] = none ∧
+    runAnte cfg routes false none [.node tyEthTx [] 0 false] = some (.ante (.invalidType tyEthTx)) := by
+  decide
+
+/-! ## Part 2: guard table -/
+
+/-- **authority_guard_table** (load-bearing table fact, decided on the regenerated table): every routed
+    custom-module message that is governance-only BY DECLARATION — it has an `Authority` field, or
+    its `cosmos.msg.v1.signer` option names a field called authority whatever the Go field is
+    called, or it is declared in a governance service (a gRPC service other than `Msg`, e.g.
+    `ProposalMsg`) — is compared with the keeper authority by its handler, and before any write. -/
+theorem authority_guard_table :
+    ∀ e ∈ Gen.Guards.entries, (e.hasAuthorityField = true ∨ e.govOnly = true) →
+      e.guard = .authority ∧ e.guardFirst = true := by
+  decide
+
+/-- … and conversely no handler compares its signer with the keeper authority without being declared
+    governance-only (the two notions coincide on today's tree) -/
+theorem authority_guard_converse :
+    ∀ e ∈ Gen.Guards.entries, e.guard = .authority → e.govOnly = true := by
+  decide
+
+/-- **owner_guard_table** (load-bearing only in its second half): `ownerOnly` is DERIVED by the extractor
+    from the handler (a comparison of the signer with a stored non-authority value, or a lookup keyed
+    by the signer alone), so "`ownerOnly` → guard is `.owner` or `.self`" restates the derivation; the
+    fact with content is `guardFirst`: in none of these handlers does a store write or bank call precede
+    the comparison.  Which messages are in the class is pinned by `owner_rows_exact` /
+    `unguarded_rows_exact` below. -/
 theorem owner_guard_table :
     ∀ e ∈ Gen.Guards.entries, e.ownerOnly = true →
       (e.guard = .owner ∨ e.guard = .self) ∧ e.guardFirst = true := by
   decide
 
-/-- the table is not empty of what it speaks about (non-vacuity) -/
-theorem guard_table_nonvacuous :
-    (Gen.Guards.entries.filter (·.hasAuthorityField)).length ≥ 7 ∧
-    (Gen.Guards.entries.filter (·.ownerOnly)).length ≥ 25 ∧
-    (Gen.Guards.entries.filter (fun e => e.guard = .govRouted)).length ≥ 7 := by
+/-- the names of the rows with a given guard -/
+def rowsWith (g : Guard) : List String :=
+  (Gen.Guards.table.filter (fun r => r.2.guard = g)).map (·.1)
+
+/-- **guard_table_covers_every_rpc**: the table has exactly one Msg row per rpc method of the gRPC
+    service descriptors (`_Msg_serviceDesc`, `_ProposalMsg_serviceDesc`, … counted by an independent
+    scan of the generated `.pb.go` files): no routed custom-module message is missing from it. -/
+theorem guard_table_covers_every_rpc :
+    (Gen.Guards.entries.filter (·.isMsg)).length = (Gen.Guards.rpcMethods.map (·.2)).sum ∧
+    (Gen.Guards.rpcMethods.map (·.2)).sum = 62 := by
   decide
 
-/-- governance-only: for every state and every signer other than the authority, a message whose
-    table row is authority-guarded (or governance-routed) is rejected and nothing changes -/
+/-- **guard_table_exact_counts** (replaces the former `≥` counts): the number of rows of every class.
+    A guard that disappears from a handler, a new message, a message that loses its `Authority`
+    field: each changes one of these numbers and this theorem stops checking. -/
+theorem guard_table_exact_counts :
+    Gen.Guards.entries.length = 78 ∧
+    (Gen.Guards.entries.filter (·.hasAuthorityField)).length = 7 ∧
+    (Gen.Guards.entries.filter (·.govOnly)).length = 7 ∧
+    (Gen.Guards.entries.filter (·.ownerOnly)).length = 34 ∧
+    (rowsWith .authority).length = 7 ∧ (rowsWith .owner).length = 25 ∧ (rowsWith .self).length = 10 ∧
+    (rowsWith .govRouted).length = 16 ∧ (rowsWith .none).length = 20 := by
+  decide
+
+/-- **unguarded_rows_exact**: the routed custom-module messages in whose handler the extractor finds NO
+    signer comparison are exactly these twenty, each reviewed against the property text: they create
+    a new object for the signer, spend the signer's own funds, or are open to anybody by design
+    (finalizing a packet, fulfilling an order, relaying a client update).  `eibc.MsgFulfillOrderAuthorized`
+    (signer = the LP address whose own funds are sent) and `sponsorship.MsgClaimRewards` (keyed by the
+    claimer: `CanClaim(claimer)`) touch only what belongs to the signer.  A new message without a
+    guard, or a guard removed from a handler, changes this list. -/
+theorem unguarded_rows_exact :
+    rowsWith .none =
+      ["delayedack.MsgFinalizePacket", "delayedack.MsgFinalizePacketByPacketKey", "dymns.MsgRegisterName",
+       "dymns.MsgPurchaseOrder", "eibc.MsgTryFulfillOnDemand", "eibc.MsgFulfillOrder",
+       "eibc.MsgFulfillOrderAuthorized", "eibc.MsgCreateOnDemandLP", "incentives.MsgCreateGauge",
+       "incentives.MsgAddToGauge", "iro.MsgBuy", "iro.MsgBuyExactSpend", "iro.MsgSell", "iro.MsgClaim",
+       "lightclient.MsgSetCanonicalClient", "lightclient.MsgUpdateClient", "lockup.MsgLockTokens",
+       "rollapp.MsgCreateRollapp", "sponsorship.MsgVote", "sponsorship.MsgClaimRewards"] := by
+  decide
+
+/-- **owner_rows_exact**: the messages whose handler compares the signer with the stored owner /
+    creator / buyer / controller / proposer of the targeted object (`.owner`), or addresses the
+    signer's own object (`.self`) — derived, then pinned here.  Against the former fixed list this
+    adds `rollapp.MsgUpdateState` (proposer only; the comparison sits in x/sequencer's
+    `BeforeUpdateState` hook), `dymns.MsgPlaceBuyOrder` (continuing an order: its buyer),
+    `dymns.MsgCompleteSellOrder`, `iro.MsgCreatePlan` (rollapp owner), `sequencer.MsgKickProposer`,
+    `sponsorship.MsgRevokeVote` (the voter's own vote). -/
+theorem owner_rows_exact :
+    rowsWith .owner =
+      ["dymns.MsgRegisterAlias", "dymns.MsgTransferDymNameOwnership", "dymns.MsgSetController",
+       "dymns.MsgUpdateResolveAddress", "dymns.MsgUpdateDetails", "dymns.MsgPlaceSellOrder",
+       "dymns.MsgCancelSellOrder", "dymns.MsgCompleteSellOrder", "dymns.MsgPlaceBuyOrder",
+       "dymns.MsgCancelBuyOrder", "dymns.MsgAcceptBuyOrder", "eibc.MsgUpdateDemandOrder",
+       "eibc.MsgDeleteOnDemandLP", "iro.MsgCreatePlan", "iro.MsgEnableTrading", "iro.MsgClaimVested",
+       "lockup.MsgBeginUnlocking", "lockup.MsgExtendLockup", "lockup.MsgForceUnlock",
+       "rollapp.MsgUpdateRollappInformation", "rollapp.MsgUpdateState", "rollapp.MsgTransferOwnership",
+       "rollapp.MsgAddApp", "rollapp.MsgUpdateApp", "rollapp.MsgRemoveApp"] ∧
+    rowsWith .self =
+      ["sequencer.MsgCreateSequencer", "sequencer.MsgUpdateSequencerInformation",
+       "sequencer.MsgUpdateRewardAddress", "sequencer.MsgUpdateWhitelistedRelayers",
+       "sequencer.MsgUpdateOptInStatus", "sequencer.MsgKickProposer", "sequencer.MsgUnbond",
+       "sequencer.MsgIncreaseBond", "sequencer.MsgDecreaseBond", "sponsorship.MsgRevokeVote"] := by
+  decide
+
+/-- every guard found is found before the first write (all classes at once) -/
+theorem every_guard_is_first :
+    ∀ e ∈ Gen.Guards.entries, e.guard ≠ .none → e.guardFirst = true := by
+  decide
+
+/-- governance-only, model level.  NOTE: this restates the definition of `passes` / `gstep` for the
+    `.authority` / `.govRouted` kinds (a two-line unfolding); it carries no fact about the Go code by
+    itself.  The facts about the code are the table theorems above (`authority_guard_table`,
+    `guard_table_covers_every_rpc`, `guard_table_exact_counts`, `every_guard_is_first`) and the
+    differential runs (the driver executes `gstep` on the regenerated rows against the real handlers).
+    Statement: for every state and every signer other than the authority, a message whose table row
+    is authority-guarded (or governance-routed) is rejected and nothing changes -/
 theorem non_authority_rejected (s : Owners) (a : Attempt)
     (hg : a.entry.guard = .authority ∨ a.entry.guard = .govRouted) (hs : a.signer ≠ .authority) :
     gstep s a = (s, false) := by
@@ -277,13 +509,18 @@ theorem non_authority_rejected (s : Owners) (a : Attempt)
   | inl h => simp [passes, h, hs]
   | inr h => simp [passes, h, hs]
 
-/-- … in particular for every row of the regenerated table that carries an Authority field -/
+/-- … in particular for every row of the regenerated table that is governance-only by declaration
+    (this is where `authority_guard_table` is used: the load-bearing step) -/
 theorem authority_messages_unreachable (s : Owners) (a : Attempt)
-    (he : a.entry ∈ Gen.Guards.entries) (hf : a.entry.hasAuthorityField = true)
+    (he : a.entry ∈ Gen.Guards.entries) (hf : a.entry.hasAuthorityField = true ∨ a.entry.govOnly = true)
     (hs : a.signer ≠ .authority) : gstep s a = (s, false) :=
   non_authority_rejected s a (.inl (authority_guard_table a.entry he hf).1) hs
 
-/-- owner-only: whoever is not the current owner of the targeted object is rejected, nothing changes -/
+/-- owner-only, model level.  NOTE: given `owner_guard_table` (whose first half restates how
+    `ownerOnly` is derived) this unfolds `passes` / `gstep` for the `.owner` / `.self` kinds; the facts
+    about the Go code are `owner_rows_exact`, `unguarded_rows_exact`, `every_guard_is_first` and the
+    differential runs.  Statement: whoever is not the current owner of the targeted object is
+    rejected, nothing changes -/
 theorem non_owner_rejected (s : Owners) (a : Attempt)
     (he : a.entry ∈ Gen.Guards.entries) (ho : a.entry.ownerOnly = true)
     (hs : ∀ x, a.signer = .actor x → ownerOf s a.obj ≠ some x) : gstep s a = (s, false) := by
@@ -314,7 +551,8 @@ theorem non_owner_rejected (s : Owners) (a : Attempt)
         simp only [decide_eq_false_iff_not]
         intro e; exact hx (by rw [ho', e])
 
-/-- an accepted owner-only message was signed by the current owner of its object -/
+/-- contrapositive of `non_owner_rejected` (same caveat: a restatement of `passes`): an accepted
+    owner-only message was signed by the current owner of its object -/
 theorem accepted_owner_only_signed_by_owner (s : Owners) (a : Attempt)
     (he : a.entry ∈ Gen.Guards.entries) (ho : a.entry.ownerOnly = true)
     (hacc : (gstep s a).2 = true) : ∃ x, a.signer = .actor x ∧ ownerOf s a.obj = some x := by
@@ -344,9 +582,14 @@ def outsider (ins : List Nat) (sg : Signer) : Prop :=
 
 /-- a row of the table that the property calls privileged -/
 def privilegedRow (e : GuardEntry) : Prop :=
-  e ∈ Gen.Guards.entries ∧ (e.hasAuthorityField = true ∨ e.ownerOnly = true ∨ e.guard = .govRouted)
+  e ∈ Gen.Guards.entries ∧
+    ((e.hasAuthorityField = true ∨ e.govOnly = true) ∨ e.ownerOnly = true ∨ e.guard = .govRouted)
 
-/-- **outsiders_change_nothing** (all op sequences): if every object is owned by an insider, then no
+/-- **outsiders_change_nothing** (all op sequences).  The induction over op lists is the content on the
+    model side; per step it uses only the restatements above, so its tie to the Go code is again
+    the table theorems (`authority_guard_table`, `owner_rows_exact`, `unguarded_rows_exact`,
+    `guard_table_exact_counts`, `every_guard_is_first`) plus the differential runs.
+    Statement: if every object is owned by an insider, then no
     sequence of privileged messages signed by outsiders — however long, in whatever order, with
     whatever contents — changes any owner; every single one is rejected. -/
 theorem outsiders_change_nothing (ins : List Nat) :
@@ -375,7 +618,7 @@ theorem outsiders_change_nothing (ins : List Nat) :
 
 /-- non-vacuity of the M-Guards statements: the owner passes, a stranger does not, ownership moves -/
 example :
-    let e : GuardEntry := { id := 0, hasAuthorityField := false, ownerOnly := true, guard := .owner, guardFirst := true }
+    let e : GuardEntry := { id := 0, isMsg := true, hasAuthorityField := false, govOnly := false, ownerOnly := true, guard := .owner, guardFirst := true }
     gstep [(0, 1)] { entry := e, obj := 0, signer := .actor 1, valid := true, newOwners := [(0, 2)] } = ([(0, 2)], true) ∧
     gstep [(0, 1)] { entry := e, obj := 0, signer := .actor 2, valid := true, newOwners := [(0, 2)] } = ([(0, 1)], false) ∧
     gstep [(0, 2)] { entry := e, obj := 0, signer := .actor 1, valid := true, newOwners := [(0, 1)] } = ([(0, 2)], false) := by
